@@ -66,9 +66,10 @@ macro_rules! contract_stubs {
             if a <= $clampz {
                 kani::assume(ra <= $tmax);
             }
-            // |tanh z| >= min(|z|/2, 0.46)
+            // |tanh z| >= min(|z|/2, 0.46), and a non-zero argument never gives zero (tanh z = z for tiny z)
             let lo = if 0.5 * a < 0.46 { 0.5 * a } else { 0.46 };
             kani::assume(ra >= lo);
+            kani::assume(a == 0.0 || ra > 0.0);
             r
         }
 
@@ -227,6 +228,17 @@ mod tests {
                 }
             }
             z *= 1.013;
+        }
+        // tiny and subnormal arguments: tanh never flushes a non-zero argument to zero
+        let mut z = f64::from_bits(1);
+        while z < 1e-30 {
+            assert!(z.tanh() > 0.0 && (-z).tanh() < 0.0 && z.tanh() <= z * 1.00000000000001 && z.tanh() >= 0.5 * z);
+            z *= 3.7;
+        }
+        let mut zf = f32::from_bits(1);
+        while zf < 1e-30 {
+            assert!(zf.tanh() > 0.0 && (-zf).tanh() < 0.0 && zf.tanh() <= zf * 1.00001 && zf.tanh() >= 0.5 * zf);
+            zf *= 3.7;
         }
         assert!(t18.atanh() <= 18.1 && t9.atanh() <= 9.1);
         assert_eq!(1.0f64.ln(), 0.0);
